@@ -1204,3 +1204,8 @@ func (w *World) corruptFile(c *Corrupt) {
 	}
 	_ = os.WriteFile(f, data, 0o644)
 }
+
+// BodyFails reports whether reading the reply body to the end yields the injected error.
+func (c *Call) BodyFails() bool {
+	return c.FailAt > 0 && c.Body != nil && c.FailAt-1 <= len(c.Body)
+}
